@@ -7,7 +7,7 @@
    NOT proved (tied to the code by the correspondence run only, see DESIGN.md#C03): the iterator
    advance loops, repartitionByClass' class-stable order, binarySubProblem, view -> dataset.      *)
 From Coq Require Import List Arith Permutation.
-From SharkV Require Import ListAux C03Model C03Proofs.
+From SharkV Require Import ListAux C03Model C03Proofs C12Model C12Proofs.
 Import ListNotations.
 
 Theorem C03_optimal_batch_sizes :
@@ -131,6 +131,14 @@ Theorem C03_pairing_splice_and_split :
      = omap (fun p => (paired (fst p), paired (snd p))) (split_at_element k z)).
 Proof. intros I L k z. split; [exact (@pairing_splice I L k z)|exact (@pairing_split_at_element I L k z)]. Qed.
 Print Assumptions C03_pairing_splice_and_split.
+
+(* indexedSubset(indices, subset, complement): subset and complement together are exactly the
+   batches of the dataset (as index sets: a permutation of 0..n-1), for distinct indices in ANY order *)
+Theorem C03_subset_and_complement :
+  forall idx n, NoDup idx -> (forall i, In i idx -> i < n) ->
+    Permutation (idx ++ complement idx n) (seq 0 n).
+Proof. exact complement_perm. Qed.
+Print Assumptions C03_subset_and_complement.
 
 (* non-vacuity *)
 Example C03_example :
